@@ -1,1 +1,670 @@
-fn main() { println!("MACHINERY-ERROR check not built yet"); std::process::exit(2); }
+//! C11 — least-squares estimators return a minimiser of their documented objective.
+//!
+//! Exhaustive sweep (DESIGN.md §4 C11) over a finite catalogue of lattice designs (full factorial and
+//! fractional, n in {4,6,9,12}, p in {1,2,3}) x every column under every (offset, scale) x rank-deficient
+//! variants x {f32, f64} x the full parameter grid, running the REAL `LinearRegression`, `ElasticNet` and
+//! `MultiTaskElasticNet` and judging the returned point against the documented objective recomputed in
+//! plain f64 (module `refmodel`): no perturbation of a coefficient, of a coefficient row or of the
+//! intercept may lower the objective by more than the reported duality gap / n.
+
+mod catalogue;
+mod refmodel;
+
+use catalogue::Data;
+use linfa::traits::{Fit, Predict};
+use linfa::{Dataset, Float};
+use linfa_elasticnet::{ElasticNet, MultiTaskElasticNet};
+use linfa_linear::LinearRegression;
+use lvmc_core::{guarded, json, par_sweep, Ctx, Level, Value, Violation};
+use ndarray::{Array1, Array2};
+use refmodel::Prob;
+use serde::{Deserialize, Serialize};
+use std::collections::BTreeMap;
+use std::sync::Mutex;
+
+/// Iteration budgets. With an l1 part the solver's duality gap can close: 1e5 (quick: 1e4).
+/// Without one (penalty * l1_ratio == 0) the implementation's gap has no dual part (const = 0) and
+/// equals the primal objective, so on noisy targets it never falls below tol * ||y||^2 and the run
+/// ends on the cap whatever the budget (measured: 0.14 s / 0.54 s per such run at 1e5, which alone
+/// would cost more than the whole thorough budget): those runs get 1e4 (quick: 1e3) and are judged
+/// like any other run if they do converge.
+pub const MAX_ITER: u32 = 100_000;
+const MAX_ITER_QUICK: u32 = 10_000;
+const MAX_ITER_NO_L1: u32 = 10_000;
+const MAX_ITER_NO_L1_QUICK: u32 = 1_000;
+const PENALTIES: [f64; 5] = [0.0, 0.01, 0.1, 1.0, 10.0];
+const L1_RATIOS: [f64; 3] = [0.0, 0.5, 1.0];
+const TOLS: [f64; 2] = [1e-4, 1e-8];
+
+/// One fit: the data (literal numbers) + estimator + configuration. Self-contained, replayable.
+#[derive(Clone, Debug, Serialize, Deserialize)]
+struct Case {
+    data: Data,
+    float: String,       // "f32" | "f64"
+    est: String,         // "ols" | "enet" | "mtl"
+    targets: Vec<usize>, // columns of data.y that are used (ols / enet: exactly one)
+    penalty: f64,
+    l1_ratio: f64,
+    intercept: bool,
+    tol: f64,
+    max_iter: u32,
+}
+
+#[derive(Clone, Debug)]
+struct Spec {
+    float: &'static str,
+    est: &'static str,
+    targets: Vec<usize>,
+    penalty: f64,
+    l1_ratio: f64,
+    intercept: bool,
+    tol: f64,
+    max_iter: u32,
+}
+
+#[derive(Default, Debug)]
+struct Stats {
+    n: BTreeMap<&'static str, u64>,
+    mx: BTreeMap<&'static str, f64>,
+}
+impl Stats {
+    fn inc(&mut self, k: &'static str) {
+        *self.n.entry(k).or_insert(0) += 1;
+    }
+    fn add(&mut self, k: &'static str, v: u64) {
+        *self.n.entry(k).or_insert(0) += v;
+    }
+    fn max(&mut self, k: &'static str, v: f64) {
+        let e = self.mx.entry(k).or_insert(0.0);
+        if v > *e {
+            *e = v;
+        }
+    }
+    fn merge(&mut self, o: Stats) {
+        for (k, v) in o.n {
+            *self.n.entry(k).or_insert(0) += v;
+        }
+        for (k, v) in o.mx {
+            self.max(k, v);
+        }
+    }
+}
+
+struct FitOut {
+    w: Vec<Vec<f64>>, // p x t
+    b: Vec<f64>,      // t
+    gap: f64,
+    n_steps: u32,
+    pred: Vec<Vec<f64>>, // n x t
+}
+
+enum Fail {
+    Error(String),
+    Panic(String),
+}
+
+fn arr2<F: Float>(m: &[Vec<f64>]) -> Array2<F> {
+    let n = m.len();
+    let p = if n > 0 { m[0].len() } else { 0 };
+    Array2::from_shape_fn((n, p), |(i, j)| F::cast(m[i][j]))
+}
+fn f64of<F: Float>(x: F) -> f64 {
+    x.to_f64().unwrap()
+}
+
+fn fit_ols<F: Float>(x: &[Vec<f64>], y: &[Vec<f64>], s: &Spec) -> Result<FitOut, Fail> {
+    let xa: Array2<F> = arr2(x);
+    let ya: Array1<F> = Array1::from_iter(y.iter().map(|r| F::cast(r[0])));
+    let r = guarded(|| {
+        let ds = Dataset::new(xa.clone(), ya.clone());
+        LinearRegression::new().with_intercept(s.intercept).fit(&ds).map(|m| {
+            let pred: Array1<F> = m.predict(&xa);
+            (m.params().to_vec(), m.intercept(), pred.to_vec())
+        })
+    });
+    match r {
+        Err(p) => Err(Fail::Panic(p)),
+        Ok(Err(e)) => Err(Fail::Error(format!("{}", e))),
+        Ok(Ok((w, b, pred))) => Ok(FitOut {
+            w: w.iter().map(|&v| vec![f64of(v)]).collect(),
+            b: vec![f64of(b)],
+            gap: 0.0,
+            n_steps: 0,
+            pred: pred.iter().map(|&v| vec![f64of(v)]).collect(),
+        }),
+    }
+}
+
+fn fit_enet<F: Float>(x: &[Vec<f64>], y: &[Vec<f64>], s: &Spec) -> Result<FitOut, Fail> {
+    let xa: Array2<F> = arr2(x);
+    let ya: Array1<F> = Array1::from_iter(y.iter().map(|r| F::cast(r[0])));
+    let r = guarded(|| {
+        let ds = Dataset::new(xa.clone(), ya.clone());
+        ElasticNet::<F>::params()
+            .penalty(F::cast(s.penalty))
+            .l1_ratio(F::cast(s.l1_ratio))
+            .with_intercept(s.intercept)
+            .tolerance(F::cast(s.tol))
+            .max_iterations(s.max_iter)
+            .fit(&ds)
+            .map(|m| {
+                let pred: Array1<F> = m.predict(&xa);
+                (m.hyperplane().to_vec(), m.intercept(), m.duality_gap(), m.n_steps(), pred.to_vec())
+            })
+    });
+    match r {
+        Err(p) => Err(Fail::Panic(p)),
+        Ok(Err(e)) => Err(Fail::Error(format!("{}", e))),
+        Ok(Ok((w, b, gap, n_steps, pred))) => Ok(FitOut {
+            w: w.iter().map(|&v| vec![f64of(v)]).collect(),
+            b: vec![f64of(b)],
+            gap: f64of(gap),
+            n_steps,
+            pred: pred.iter().map(|&v| vec![f64of(v)]).collect(),
+        }),
+    }
+}
+
+fn fit_mtl<F: Float>(x: &[Vec<f64>], y: &[Vec<f64>], s: &Spec) -> Result<FitOut, Fail> {
+    let xa: Array2<F> = arr2(x);
+    let ya: Array2<F> = arr2(y);
+    let r = guarded(|| {
+        let ds = Dataset::new(xa.clone(), ya.clone());
+        MultiTaskElasticNet::<F>::params()
+            .penalty(F::cast(s.penalty))
+            .l1_ratio(F::cast(s.l1_ratio))
+            .with_intercept(s.intercept)
+            .tolerance(F::cast(s.tol))
+            .max_iterations(s.max_iter)
+            .fit(&ds)
+            .map(|m| {
+                let pred: Array2<F> = m.predict(&xa);
+                (m.hyperplane().clone(), m.intercept().to_vec(), m.duality_gap(), m.n_steps(), pred)
+            })
+    });
+    match r {
+        Err(p) => Err(Fail::Panic(p)),
+        Ok(Err(e)) => Err(Fail::Error(format!("{}", e))),
+        Ok(Ok((w, b, gap, n_steps, pred))) => Ok(FitOut {
+            w: (0..w.nrows()).map(|j| (0..w.ncols()).map(|t| f64of(w[(j, t)])).collect()).collect(),
+            b: b.iter().map(|&v| f64of(v)).collect(),
+            gap: f64of(gap),
+            n_steps,
+            pred: (0..pred.nrows()).map(|i| (0..pred.ncols()).map(|t| f64of(pred[(i, t)])).collect()).collect(),
+        }),
+    }
+}
+
+/// Tolerances per float type (all stated in `main` through ctx.assume).
+struct Tol {
+    /// slack on objective differences, relative to P0 = ||y||^2 / (2n)
+    c_obj: f64,
+    /// lower bound on the reported gap, relative to ||y||^2
+    c_gap: f64,
+    /// OLS orthogonality, relative to ||x_j|| * S
+    c_orth: f64,
+    /// predict == Xw + b, relative to sum |x||w| + |b|
+    c_pred: f64,
+    /// |intercept - mean(y)| for recognising the closed form of the known defect
+    c_mean: f64,
+}
+fn tol_of(float: &str) -> Tol {
+    if float == "f32" {
+        Tol { c_obj: 1e-4, c_gap: 1e-5, c_orth: 1e-4, c_pred: 1e-5, c_mean: 1e-5 }
+    } else {
+        Tol { c_obj: 1e-9, c_gap: 1e-12, c_orth: 1e-8, c_pred: 1e-12, c_mean: 1e-12 }
+    }
+}
+
+fn round_to(float: &str, v: f64) -> f64 {
+    if float == "f32" {
+        v as f32 as f64
+    } else {
+        v
+    }
+}
+
+/// Runs one fit and judges it. Pure function of (data, spec).
+fn run_fit(data: &Data, s: &Spec, viols: &mut Vec<Violation>, st: &mut Stats) {
+    let n = data.x.len();
+    let p = data.x[0].len();
+    // the numbers as the subject sees them (after rounding to its float type)
+    let x: Vec<Vec<f64>> = data.x.iter().map(|r| r.iter().map(|&v| round_to(s.float, v)).collect()).collect();
+    let y: Vec<Vec<f64>> = data.y.iter().map(|r| s.targets.iter().map(|&t| round_to(s.float, r[t])).collect()).collect();
+    let t = s.targets.len();
+    let case_json = || -> Value {
+        serde_json::to_value(Case {
+            data: data.clone(),
+            float: s.float.to_string(),
+            est: s.est.to_string(),
+            targets: s.targets.clone(),
+            penalty: s.penalty,
+            l1_ratio: s.l1_ratio,
+            intercept: s.intercept,
+            tol: s.tol,
+            max_iter: s.max_iter,
+        })
+        .unwrap()
+    };
+    let tl = tol_of(s.float);
+
+    // ---- domain predicate: [X | 1] must have full column rank, unless the ridge part regularises
+    let full_rank = refmodel::full_column_rank(&x, s.intercept);
+    let regularised = s.est != "ols" && s.penalty > 0.0 && s.l1_ratio < 1.0;
+    if !full_rank && !regularised {
+        st.inc("out_of_domain_rank_deficient_unregularised");
+        return;
+    }
+    st.inc("fits");
+    if !full_rank {
+        st.inc("fits_rank_deficient_regularised");
+    }
+
+    let t0 = std::time::Instant::now();
+    let res = match (s.est, s.float) {
+        ("ols", "f64") => fit_ols::<f64>(&x, &y, s),
+        ("ols", "f32") => fit_ols::<f32>(&x, &y, s),
+        ("enet", "f64") => fit_enet::<f64>(&x, &y, s),
+        ("enet", "f32") => fit_enet::<f32>(&x, &y, s),
+        ("mtl", "f64") => fit_mtl::<f64>(&x, &y, s),
+        ("mtl", "f32") => fit_mtl::<f32>(&x, &y, s),
+        _ => panic!("bad spec"),
+    };
+    let us = t0.elapsed().as_micros() as u64;
+    if let Ok(o) = &res {
+        let capped = s.est != "ols" && o.n_steps >= s.max_iter;
+        st.add(
+            match (s.est, capped) {
+                ("ols", _) => "cpu_us_ols_fits",
+                ("enet", true) => "cpu_us_enet_fits_on_iteration_cap",
+                ("enet", false) => "cpu_us_enet_fits_converged",
+                (_, true) => "cpu_us_mtl_fits_on_iteration_cap",
+                (_, false) => "cpu_us_mtl_fits_converged",
+            },
+            us,
+        );
+        if capped {
+            st.inc(if s.est == "enet" { "enet_fits_on_iteration_cap" } else { "mtl_fits_on_iteration_cap" });
+        }
+    }
+    let out = match res {
+        Ok(o) => o,
+        Err(Fail::Error(e)) => {
+            viols.push(Violation::new(format!("{}.fit.unexpected_error", s.est), format!("fit on in-domain data (n={}, p={}, t={}) returned Err({})", n, p, t, e), case_json()));
+            return;
+        }
+        Err(Fail::Panic(m)) => {
+            viols.push(Violation::new(format!("{}.fit.panic", s.est), format!("fit on in-domain data (n={}, p={}, t={}) panicked: {}", n, p, t, m), case_json()));
+            return;
+        }
+    };
+    if out.w.len() != p || out.b.len() != t || out.w.iter().any(|r| r.len() != t) || out.pred.len() != n {
+        viols.push(Violation::new(format!("{}.fit.wrong_shape", s.est), format!("coefficients {}x{}, intercepts {}, predictions {} for n={}, p={}, t={}", out.w.len(), out.w.first().map_or(0, |r| r.len()), out.b.len(), out.pred.len(), n, p, t), case_json()));
+        return;
+    }
+    let finite = out.w.iter().flatten().chain(out.b.iter()).all(|v| v.is_finite()) && out.gap.is_finite();
+    if !finite {
+        viols.push(Violation::new(format!("{}.fit.non_finite", s.est), format!("non-finite result: w={:?} b={:?} gap={}", out.w, out.b, out.gap), case_json()));
+        return;
+    }
+
+    // ---- predict == X w + b (always, also for unconverged runs)
+    for i in 0..n {
+        for tt in 0..t {
+            let mut v = out.b[tt];
+            let mut mag = out.b[tt].abs();
+            for j in 0..p {
+                v += x[i][j] * out.w[j][tt];
+                mag += (x[i][j] * out.w[j][tt]).abs();
+            }
+            if (v - out.pred[i][tt]).abs() > tl.c_pred * mag.max(1e-300) {
+                viols.push(Violation::new(format!("{}.predict.not_xw_plus_b", s.est), format!("row {} target {}: predict = {} but x.w + b = {}", i, tt, out.pred[i][tt], v), case_json()));
+                return;
+            }
+        }
+    }
+    if !s.intercept && out.b.iter().any(|&b| b != 0.0) {
+        viols.push(Violation::new(format!("{}.intercept.nonzero_without_intercept", s.est), format!("with_intercept(false) but intercept = {:?}", out.b), case_json()));
+        return;
+    }
+
+    if s.est == "ols" {
+        judge_ols(&x, &y, s, &out, &tl, viols, st, &case_json);
+        return;
+    }
+
+    let prob = Prob::new(&x, &y, s.penalty * s.l1_ratio, s.penalty * (1.0 - s.l1_ratio));
+    // ---- iteration cap: counted, not judged — except where exact coordinate descent provably stops
+    if out.n_steps >= s.max_iter {
+        st.inc("not_converged_iteration_cap");
+        st.inc(if prob.lam1 > 0.0 { "not_converged_with_l1_part" } else { "not_converged_without_l1_part" });
+        let f32_ok = s.float == "f64" || s.tol >= 1e-4;
+        if prob.lam1 > 0.0 && f32_ok && refmodel::orthogonal_centred(&x) {
+            st.inc("cap_on_orthogonal_centred_design_checked");
+            viols.push(Violation::new(
+                format!("{}.iteration_cap_on_orthogonal_centred_design", s.est),
+                format!(
+                    "columns are mean-zero and mutually orthogonal, so exact (block) coordinate descent reaches the optimum in one sweep and the l1 duality gap closes; the run used all {} iterations (gap {} vs stop threshold tol*||y||^2 = {})",
+                    s.max_iter, out.gap, s.tol * prob.y_centred_sq(s.intercept)
+                ),
+                case_json(),
+            ));
+        }
+        return;
+    }
+    st.inc("judged_converged");
+    if prob.lam1 > 0.0 && refmodel::orthogonal_centred(&x) {
+        st.inc("cap_on_orthogonal_centred_design_checked");
+    }
+    let nontrivial = out.w.iter().flatten().any(|&v| v != 0.0);
+    if nontrivial {
+        st.inc("judged_nontrivial_nonzero_coefficients");
+    }
+    let ysq: f64 = y.iter().flatten().map(|v| v * v).sum();
+    let p0 = ysq / (2.0 * n as f64) + 1e-300;
+    let eps = tl.c_obj * p0;
+
+    // ---- gap >= 0
+    if out.gap < -tl.c_gap * ysq.max(1e-300) {
+        viols.push(Violation::new(format!("{}.duality_gap.negative", s.est), format!("reported duality gap {} < 0 (||y||^2 = {})", out.gap, ysq), case_json()));
+    }
+    let bound = out.gap.max(0.0) / n as f64 + eps;
+
+    // ---- perturbations: ladder on every coefficient entry, exact row minimiser, intercept
+    let r = prob.resid(&out.w, &out.b);
+    let pert = prob.perturb(&r, &out.w, s.intercept);
+    st.add("perturbations_evaluated", pert.evaluated);
+    st.max(if s.float == "f32" { "max_decrease_over_bound_f32" } else { "max_decrease_over_bound_f64" }, pert.d_coef.max(pert.d_int) / bound);
+    let coef_bad = pert.d_coef > bound;
+    let int_bad = s.intercept && pert.d_int > bound;
+    // closed form of the known defect: intercept == mean(y) although mean(X).w != 0
+    let ymean: Vec<f64> = (0..t).map(|tt| y.iter().map(|r| r[tt]).sum::<f64>() / n as f64).collect();
+    let yrms = (ysq / (n * t) as f64).sqrt().max(1e-300);
+    let b_is_ymean = s.intercept && (0..t).all(|tt| (out.b[tt] - ymean[tt]).abs() <= tl.c_mean * ymean[tt].abs().max(yrms));
+    let xmean: Vec<f64> = (0..p).map(|j| x.iter().map(|r| r[j]).sum::<f64>() / n as f64).collect();
+    let xw: Vec<f64> = (0..t).map(|tt| (0..p).map(|j| xmean[j] * out.w[j][tt]).sum::<f64>()).collect();
+    let offset_effect = xw.iter().any(|v| v.abs() > 1e-6 * yrms);
+    let narrow = int_bad && !coef_bad && b_is_ymean && offset_effect;
+    if s.intercept && offset_effect {
+        st.inc("judged_with_intercept_on_offset_features");
+    }
+    if coef_bad {
+        viols.push(Violation::new(
+            format!("{}.coefficient_perturbation_lowers_objective_beyond_gap", s.est),
+            format!("{} lowers the objective by {:e}, but reported gap/n + eps = {:e} (gap {:e}, n_steps {}); w={:?} b={:?}; kkt residual of that row {:e}", pert.coef_at, pert.d_coef, bound, out.gap, out.n_steps, out.w, out.b, pert.kkt_at),
+            case_json(),
+        ));
+    }
+    if int_bad {
+        let joint: Vec<f64> = (0..t).map(|tt| out.b[tt] + pert.mean_r[tt]).collect();
+        if narrow {
+            viols.push(Violation::new(
+                format!("{}.intercept_is_target_mean_on_offset_features_not_joint_optimum", s.est),
+                format!(
+                    "intercept {:?} == mean(y) while mean(X).w = {:?} != 0: moving the intercept to {:?} (w fixed) lowers the objective by {:e}, reported gap/n + eps = {:e} (gap {:e}, n_steps {}); coefficients are optimal for the frozen intercept (best coefficient perturbation gains {:e}); w={:?}",
+                    out.b, xw, joint, pert.d_int, bound, out.gap, out.n_steps, pert.d_coef, out.w
+                ),
+                case_json(),
+            ));
+        } else {
+            viols.push(Violation::new(
+                format!("{}.intercept_perturbation_lowers_objective_beyond_gap", s.est),
+                format!("{} lowers the objective by {:e}, but reported gap/n + eps = {:e} (gap {:e}, n_steps {}); w={:?} b={:?} mean(y)={:?} residual means={:?}", pert.int_at, pert.d_int, bound, out.gap, out.n_steps, out.w, out.b, ymean, pert.mean_r),
+                case_json(),
+            ));
+        }
+    }
+
+    // ---- coefficients under the l1 threshold are exactly zero
+    if prob.lam1 > 0.0 {
+        let thr = n as f64 * prob.lam1;
+        for j in 0..p {
+            let nz = out.w[j].iter().any(|&v| v != 0.0);
+            if !nz {
+                st.inc("exactly_zero_rows_seen");
+                continue;
+            }
+            let (corr, mag) = prob.partial_correlation(&r, &out.w, j);
+            let margin = (10.0 * s.tol + 100.0 * tl.c_obj) * (thr + mag);
+            if corr < thr - margin {
+                st.inc("nonzero_rows_under_threshold");
+                viols.push(Violation::new(
+                    format!("{}.nonzero_coefficient_under_l1_threshold", s.est),
+                    format!("feature {}: |x_j.(r + x_j w_j)| = {} is under the l1 threshold n*penalty*l1_ratio = {} (margin {}), yet w_j = {:?} instead of exactly 0", j, corr, thr, margin, out.w[j]),
+                    case_json(),
+                ));
+            } else if corr <= thr + margin {
+                st.inc("threshold_margin_indeterminate");
+            } else {
+                st.inc("nonzero_rows_clearly_over_threshold");
+            }
+        }
+    }
+
+    // ---- the gap bounds the true suboptimality (reference optimum from the harness's own solver)
+    match refmodel::solve(&prob, s.intercept) {
+        Some(pstar) => {
+            st.inc("global_optimum_checked");
+            let pimpl = prob.objective(&out.w, &out.b);
+            if pimpl - pstar > bound && !narrow {
+                viols.push(Violation::new(
+                    format!("{}.gap_not_upper_bound_on_suboptimality", s.est),
+                    format!("objective at the returned point {:e}, reference optimum {:e}: suboptimality {:e} > gap/n + eps = {:e} (gap {:e}, n_steps {}); w={:?} b={:?}", pimpl, pstar, pimpl - pstar, bound, out.gap, out.n_steps, out.w, out.b),
+                    case_json(),
+                ));
+            }
+        }
+        None => st.inc("global_check_skipped_reference_unconverged"),
+    }
+}
+
+fn judge_ols(x: &[Vec<f64>], y: &[Vec<f64>], s: &Spec, out: &FitOut, tl: &Tol, viols: &mut Vec<Violation>, st: &mut Stats, case_json: &dyn Fn() -> Value) {
+    let n = x.len();
+    let p = x[0].len();
+    st.inc("ols_fits");
+    let prob = Prob::new(x, y, 0.0, 0.0);
+    let r = prob.resid(&out.w, &out.b);
+    let rr: Vec<f64> = r.iter().map(|v| v[0]).collect();
+    let ynorm = y.iter().map(|v| v[0] * v[0]).sum::<f64>().sqrt();
+    let colnorm: Vec<f64> = (0..p).map(|j| prob.col_sq(j).sqrt()).collect();
+    // backward-error scale of a least-squares solve
+    let s_scale = ynorm + (0..p).map(|j| colnorm[j] * out.w[j][0].abs()).sum::<f64>() + (n as f64).sqrt() * out.b[0].abs() + 1e-300;
+    let rnorm = rr.iter().map(|v| v * v).sum::<f64>().sqrt();
+    if rnorm > 1e-6 * ynorm {
+        st.inc("ols_nontrivial_nonzero_residual");
+    }
+    let key = if s.float == "f32" { "ols_max_orthogonality_ratio_f32" } else { "ols_max_orthogonality_ratio_f64" };
+    for j in 0..p {
+        let g: f64 = (0..n).map(|i| x[i][j] * rr[i]).sum();
+        let lim = tl.c_orth * colnorm[j] * s_scale;
+        st.max(key, g.abs() / (colnorm[j] * s_scale).max(1e-300) / tl.c_orth);
+        if g.abs() > lim {
+            viols.push(Violation::new("ols.residual_not_orthogonal_to_feature_column", format!("|x_{}.r| = {:e} > {:e}; params={:?} intercept={}", j, g.abs(), lim, out.w, out.b[0]), case_json()));
+            return;
+        }
+    }
+    if s.intercept {
+        let g: f64 = rr.iter().sum();
+        let lim = tl.c_orth * (n as f64).sqrt() * s_scale;
+        st.max(key, g.abs() / ((n as f64).sqrt() * s_scale) / tl.c_orth);
+        if g.abs() > lim {
+            viols.push(Violation::new("ols.residual_not_orthogonal_to_constant_column", format!("|1.r| = {:e} > {:e}; params={:?} intercept={}", g.abs(), lim, out.w, out.b[0]), case_json()));
+            return;
+        }
+    }
+    // SSE(beta + delta e_j) >= SSE(beta) for the ladder of deltas (objective here = SSE/(2n))
+    let pert = prob.perturb(&r, &out.w, s.intercept);
+    st.add("perturbations_evaluated", pert.evaluated);
+    let eps = (tl.c_orth * s_scale).powi(2) / (2.0 * n as f64);
+    if pert.d_coef.max(if s.intercept { pert.d_int } else { 0.0 }) > eps {
+        viols.push(Violation::new(
+            "ols.perturbation_lowers_sse",
+            format!("{} / {} lowers SSE/(2n) by {:e} / {:e} (eps {:e}); params={:?} intercept={}", pert.coef_at, pert.int_at, pert.d_coef, pert.d_int, eps, out.w, out.b[0]),
+            case_json(),
+        ));
+        return;
+    }
+    // against the harness's own least-squares solution
+    if let Some((wref, bref)) = refmodel::lstsq(x, &y.iter().map(|v| v[0]).collect::<Vec<_>>(), s.intercept) {
+        let sse_ref = 2.0 * n as f64 * prob.objective(&wref.iter().map(|&v| vec![v]).collect::<Vec<_>>(), &[bref]);
+        let sse = rnorm * rnorm;
+        st.inc("ols_reference_compared");
+        if sse > sse_ref + tl.c_orth * s_scale * s_scale {
+            viols.push(Violation::new("ols.sse_above_reference_minimum", format!("SSE {:e} > reference minimum {:e}; params={:?} intercept={} reference={:?} {}", sse, sse_ref, out.w, out.b[0], wref, bref), case_json()));
+        }
+    } else {
+        st.inc("ols_reference_singular");
+    }
+}
+
+fn spec_of(c: &Case) -> Spec {
+    Spec {
+        float: if c.float == "f32" { "f32" } else { "f64" },
+        est: match c.est.as_str() {
+            "ols" => "ols",
+            "enet" => "enet",
+            _ => "mtl",
+        },
+        targets: c.targets.clone(),
+        penalty: c.penalty,
+        l1_ratio: c.l1_ratio,
+        intercept: c.intercept,
+        tol: c.tol,
+        max_iter: c.max_iter,
+    }
+}
+
+fn replay_value(v: &Value) -> Vec<Violation> {
+    let c: Case = match serde_json::from_value(v.clone()) {
+        Ok(c) => c,
+        Err(e) => {
+            println!("MACHINERY-ERROR replay case does not parse: {}", e);
+            std::process::exit(2);
+        }
+    };
+    let mut out = Vec::new();
+    let mut st = Stats::default();
+    run_fit(&c.data, &spec_of(&c), &mut out, &mut st);
+    out
+}
+
+struct Task {
+    data: usize,
+    float: &'static str,
+    est: &'static str,
+}
+
+fn specs_for(ctx: &Ctx, task: &Task) -> Vec<Spec> {
+    let mut v = Vec::new();
+    match task.est {
+        "ols" => {
+            for tcol in 0..3 {
+                for intercept in [true, false] {
+                    v.push(Spec { float: task.float, est: "ols", targets: vec![tcol], penalty: 0.0, l1_ratio: 0.0, intercept, tol: 0.0, max_iter: 0 });
+                }
+            }
+        }
+        est => {
+            let target_sets: Vec<Vec<usize>> = if est == "enet" {
+                ctx.pick(vec![vec![0], vec![2]], vec![vec![0], vec![1], vec![2]])
+            } else {
+                ctx.pick(vec![vec![0, 1], vec![0, 1, 2]], vec![vec![0], vec![0, 1], vec![0, 1, 2]])
+            };
+            for targets in target_sets {
+                for &penalty in &PENALTIES {
+                    for &l1_ratio in &L1_RATIOS {
+                        for intercept in [true, false] {
+                            for &tol in &TOLS {
+                                let max_iter = if penalty * l1_ratio > 0.0 { ctx.pick(MAX_ITER_QUICK, MAX_ITER) } else { ctx.pick(MAX_ITER_NO_L1_QUICK, MAX_ITER_NO_L1) };
+                                v.push(Spec { float: task.float, est: if est == "enet" { "enet" } else { "mtl" }, targets: targets.clone(), penalty, l1_ratio, intercept, tol, max_iter });
+                            }
+                        }
+                    }
+                }
+            }
+        }
+    }
+    v
+}
+
+fn main() {
+    let ctx = Ctx::new("C11", Level::Exploration);
+    ctx.maybe_replay(&replay_value);
+    ctx.set_rule(
+        "cases = (design of the catalogue, per-column (offset, scale) image, variant, float type, estimator, target columns, penalty, l1_ratio, intercept, tol). \
+         Catalogue: full-factorial and fractional lattice designs with n in {4,6,9,12}, p in {1,2,3} (ids in coverage.designs), each column centred and mapped to (z + offset) * scale with \
+         offset in {0, 5, -100} lattice units and scale in {1e-3, 1, 1e3}: every column sees every (offset, scale) pair (p = 1: all 9; p >= 2: the 9 'same for all columns' images + 8 per column with the other columns at (0, 1); thorough additionally the full 9^p cross product for p = 2); \
+         variants: an appended constant column (0, 1 or 5000) and an appended duplicate of column 0, run only with penalty > 0 and l1_ratio < 1; targets = fixed linear function of the centred lattice coordinates + constant + fixed noise table, 3 columns. \
+         Estimators: OLS (each target column, intercept on / off), ElasticNet (single target columns), MultiTaskElasticNet (first 1..3 target columns); grid penalty {0,.01,.1,1,10} x l1_ratio {0,.5,1} x intercept {on,off} x tol {1e-4,1e-8}, max_iterations 1e5; f32 and f64. \
+         Every member is run. evaluations = fits; a fit that ends on the iteration cap is counted in not_converged_iteration_cap and not judged (except on mean-zero orthogonal designs with an l1 part, where ending on the cap is itself a violation); \
+         non-trivial = judged elastic-net fit with at least one non-zero coefficient, or OLS fit with a non-zero residual.",
+    );
+    ctx.assume("documented objective P(w,b) = 1/(2n) ||Y - XW - 1b'||_F^2 + penalty*l1_ratio*sum_j ||W_j||_2 + penalty*(1-l1_ratio)/2 ||W||_F^2 (single target: ||W_j||_2 = |w_j|), evaluated in plain f64 on the numbers as rounded to the subject's float type");
+    ctx.assume("the solver's internal objective is n*P, so the bound used is reported_gap / n; elastic net: P(w) - P(w') <= gap/n + eps for every tested w', eps = 1e-9 (f64) / 1e-4 (f32) x ||y||^2/(2n)");
+    ctx.assume("tested perturbations: every coefficient entry and every intercept +- 10^k (k = -6..0) x rms(y)/rms(x_j) (intercept: x rms(y)); the exact minimiser of every coefficient row (block soft-threshold) and of the intercepts with everything else fixed (this equals the decrease implied by the KKT residual g^2/2a); objective differences are computed cancellation-free from the residual");
+    ctx.assume("reported gap >= -1e-12 (f64) / -1e-5 (f32) x ||y||^2");
+    ctx.assume("global cross-check: P(returned) - P* <= gap/n + eps with P* from the harness's own f64 block coordinate descent on the centred problem (<= 20000 sweeps, accepted only when its own KKT-implied decrease is < 1e-14 x ||y||^2/2n, otherwise counted in global_check_skipped_reference_unconverged)");
+    ctx.assume("l1 threshold: a non-zero coefficient row j with ||x_j'(R + x_j w_j)|| < n*penalty*l1_ratio - margin is a violation; margin = (10*tol + 100*c_obj) x (threshold + sum_k |x_j.x_k| ||w_k|| + ||x_j'Y||); inside the margin = indeterminate (counted)");
+    ctx.assume("OLS: |x_j.r| <= c x ||x_j|| x S and |1.r| <= c x sqrt(n) x S with S = ||y|| + sum_k ||x_k|| |beta_k| + sqrt(n)|b| (backward-error scale of a least-squares solve), c = 1e-8 (f64) / 1e-4 (f32); SSE ladder slack (c S)^2; SSE <= reference minimum (normal equations on standardised centred columns, Gaussian elimination) + c S^2");
+    ctx.assume("predict == X w + b within 1e-12 (f64) / 1e-5 (f32) x (sum |x_ij w_j| + |b|)");
+    ctx.assume("domain: [X | 1 if intercept] has full column rank (lvmc_core::refmath::rank on unit-norm columns, pivot tolerance 1e-7) — otherwise the case is run only with penalty > 0 and l1_ratio < 1 and counted out of domain else");
+    ctx.assume("'mean-zero orthogonal design' (where the iteration cap is a violation): |mean_j| <= 1e-6 rms_j and |x_j.x_k| <= 1e-6 ||x_j|| ||x_k||, l1 part > 0, f64 or tol >= 1e-4");
+    ctx.assume("narrow signature *.intercept_is_target_mean_on_offset_features_not_joint_optimum is assigned only when the intercept equals mean(y) (1e-12 / 1e-5 relative), mean(X).w != 0, the intercept move is the only perturbation that beats the gap and the coefficients are optimal for the frozen intercept");
+
+    let thorough = ctx.thorough();
+    let datas = catalogue::enumerate(thorough);
+    let mut tasks: Vec<Task> = Vec::new();
+    for (i, _) in datas.iter().enumerate() {
+        for float in ["f64", "f32"] {
+            for est in ["ols", "enet", "mtl"] {
+                tasks.push(Task { data: i, float, est });
+            }
+        }
+    }
+    let mut design_ids: Vec<String> = datas.iter().map(|d| d.design.clone()).collect();
+    design_ids.sort();
+    design_ids.dedup();
+    ctx.extra("designs", json!(design_ids));
+    ctx.extra("data_sets_enumerated", json!(datas.len()));
+    let expected: u64 = tasks.iter().map(|t| specs_for(&ctx, t).len() as u64).sum();
+    ctx.extra("fits_enumerated", json!(expected));
+
+    let global = Mutex::new(Stats::default());
+    par_sweep(&ctx, "fits", &tasks, |task| {
+        let data = &datas[task.data];
+        let mut st = Stats::default();
+        let mut v = Vec::new();
+        let specs = specs_for(&ctx, task);
+        for s in &specs {
+            let before = st.n.get("judged_nontrivial_nonzero_coefficients").copied().unwrap_or(0) + st.n.get("ols_nontrivial_nonzero_residual").copied().unwrap_or(0);
+            let fits_before = st.n.get("fits").copied().unwrap_or(0);
+            run_fit(data, s, &mut v, &mut st);
+            let after = st.n.get("judged_nontrivial_nonzero_coefficients").copied().unwrap_or(0) + st.n.get("ols_nontrivial_nonzero_residual").copied().unwrap_or(0);
+            if st.n.get("fits").copied().unwrap_or(0) > fits_before {
+                ctx.eval(after > before);
+            } else {
+                ctx.out_of_domain();
+            }
+        }
+        st.add("specs_visited", specs.len() as u64);
+        ctx.violations(v);
+        ctx.sample(|| json!({"design": data.design, "variant": data.variant, "offsets": data.offsets, "scales": data.scales, "x": data.x, "y": data.y, "float": task.float, "estimator": task.est, "fits": specs.len()}));
+        global.lock().unwrap().merge(st);
+    });
+    let g = global.into_inner().unwrap();
+    for (k, v) in &g.n {
+        ctx.extra(k, json!(v));
+    }
+    for (k, v) in &g.mx {
+        ctx.extra(k, json!(v));
+    }
+    let visited = g.n.get("specs_visited").copied().unwrap_or(0);
+    if visited != expected {
+        ctx.capped(&format!("visited {} of {} enumerated fits", visited, expected));
+    }
+    let indet = g.n.get("threshold_margin_indeterminate").copied().unwrap_or(0);
+    for _ in 0..indet {
+        ctx.indeterminate();
+    }
+    ctx.finish(&replay_value);
+}
